@@ -22,7 +22,7 @@ HTML_RAW = frozenset(("script", "style"))
 # '/' marks an end tag and ' ' never occurs in a Python identifier
 TAG_RE = re.compile(r"[A-Z0-9_]+\Z")
 
-CLAUSES = ("I1", "I2", "I3", "I4", "I5", "I6", "I7", "I8", "I9", "I11", "I12")
+CLAUSES = ("I1", "I2", "I3", "I4", "I5", "I6", "I7", "I8", "I9", "I11", "I12", "I13")
 MAX_CANDIDATES = 6000
 
 
@@ -778,6 +778,59 @@ def i12(e, C, seed=0):
     return out
 
 
+def i13(e, C, seed=0, builder=None):
+    """a group in force is enforced: the constructor refuses an instance carrying two members of an exclusivity group
+    (I5 reads the declarations; a validate_args override that does not consult them is only seen by trying)"""
+    out = []
+    sd = dict(e.spec[C])
+    b = builder or Builder(e, seed)
+    for kindattr, label in (("optionalMutexes", "optional"), ("requiredMutexes", "required")):
+        for g in (getattr(C, kindattr, None) or []):
+            g = [m for m in g if isinstance(m, str)]
+            usable = [m for m in g if m in sd and kind(e, sd[m]) in ("element", "subaggregate") and not getattr(sd[m], "required", False)]
+            if len(usable) < 2:
+                continue
+            t0 = time.time()
+            m1, m2 = usable[0], usable[1]
+            name = f"C13/I13/{C.__name__}/{label}:{'+'.join(g)}"
+            try:
+                x1 = b.witness(C, (m1,), ())
+                x2 = b.witness(C, (m2,), ())
+            except Exception:
+                continue                  # no witness: reachability is clause I9's business
+            names = [n for n, t in e.spec[C] if kind(e, t) in ("element", "subaggregate")]
+            kw = {n: getattr(x1, n) for n in names if getattr(x1, n) is not None}
+            v2 = getattr(x2, m2)
+            if v2 is None or kw.get(m1) is None:
+                continue
+            kw[m2] = v2
+            try:
+                with warnings.catch_warnings():
+                    warnings.simplefilter("ignore")
+                    C(*list(x1), **kw)
+                ok, det = False, (f"{C.__name__} declares the {label} exclusivity group {g}, yet the constructor builds an instance holding both "
+                                  f"'{m1}' and '{m2}'")
+            except Exception:
+                ok, det = True, ""
+            used = set()
+            try:
+                ex1, ex2 = expr(e, x1, used), expr(e, x2, used)
+                imports = "".join(f"from {c.__module__} import {c.__name__}\n" for c in sorted(used, key=lambda c: c.__name__))
+                py = (PRE + "import datetime\nfrom decimal import Decimal\nfrom ofxtools.utils import UTC\n"
+                      "try:\n" + "".join("    " + l + "\n" for l in imports.splitlines()) +
+                      f"    x1 = {ex1}\n    x2 = {ex2}\n"
+                      f"    names = {names!r}\n"
+                      "    kw = {n: getattr(x1, n) for n in names if getattr(x1, n) is not None}\n"
+                      f"    kw[{m2!r}] = getattr(x2, {m2!r})\n"
+                      "except Exception as ex:\n    print('witness no longer constructible', ex); sys.exit(0)\n"
+                      "try:\n    type(x1)(*list(x1), **kw)\nexcept Exception:\n    sys.exit(0)\n"
+                      "sys.exit(17)\n")
+            except Exception:
+                py = snippet_native("I13", C, name, seed)
+            out.append(R(name, "I13", C, ok, det, py, attr=f"{label}:{'+'.join(g)}", t0=t0))
+    return out
+
+
 PER_CLASS = {"I12": i12, "I1": i1, "I2": i2, "I3": i3, "I4": i4, "I5": i5, "I6": i6, "I7": i7, "I8": i8}
 
 
@@ -791,6 +844,7 @@ def check_class(e, C, seed, builder=None):
     for cl in ("I5", "I6", "I7", "I8", "I12"):
         res += PER_CLASS[cl](e, C, seed)
     res += i11(e, C, seed, b)
+    res += i13(e, C, seed, b)
     r9, stats = i9(e, C, seed, b)
     res += r9
     return res, stats
@@ -829,6 +883,8 @@ def native(clause, module, clsname, name, seed=0):
         res = i4(e, C, seed)
     elif clause == "I11":
         res = i11(e, C, seed)
+    elif clause == "I13":
+        res = i13(e, C, seed)
     else:
         res = PER_CLASS[clause](e, C, seed)
     for r in res:
